@@ -57,9 +57,9 @@ def make_objs(rng, n):
             # around the machine word
             start = rng.choice(BIG)
         end = start + rng.choice([0, 0, 1, 5, 90])
-        tumor = rng.choice(["T1", "T2", "TA", "Zz-9"])
+        tumor = rng.choice(["T1", "T2", "TA", "Zz-9"] + SC.TUMORS)
         # (names on both sides of the text 'None' and of the empty text: a missing barcode is last, not a name)
-        normal = rng.choice(["N1", "N2", "TCGA-11", "b-12", None, None])
+        normal = rng.choice(["N1", "N2", "TCGA-11", "b-12", None, None, "N1A", "N1|T", "N"])
         if kind == "typed":
             objs.append(("typed", SC.typed_record(rng, tumor, normal, chrom, start, end)))
         elif kind == "untyped":
